@@ -97,6 +97,85 @@ func c14filter(delay time.Duration, n, bound int, go123 bool, slow ...time.Durat
 	return sc
 }
 
+// c14filterConc: several arrival paths push into one delay filter at the same time (a router with
+// several senders does exactly this).  Arrival order is only defined between datagrams whose pushes
+// do not overlap: a push that returned before another began is earlier.
+func c14filterConc(delay time.Duration, threads, per, bound int) *explore.Scenario {
+	sc := &explore.Scenario{Name: fmt.Sprintf("delayfilter d=%v, %d concurrent arrival paths x %d", delay, threads, per), Bound: bound}
+	sc.Cfg.Horizon = 30 * time.Second
+	sc.Make = func() (func(), func(*zzvsched.Exec) (string, *explore.Violation)) {
+		rec := vnet.ZZNewRecNIC()
+		type arr struct{ before, after time.Duration }
+		arrivals := map[string]*arr{}
+		pushed := 0
+		body := func() {
+			f, err := vnet.NewDelayFilter(rec, delay)
+			if err != nil {
+				panic(err)
+			}
+			ctx, _ := zzvsched.WithCancel()
+			zzvsched.GoNamed("run", func() { f.Run(ctx) })
+			for t := 0; t < threads; t++ {
+				t := t
+				zzvsched.GoNamed(fmt.Sprintf("arrive%d", t), func() {
+					for i := 0; i < per; i++ {
+						tag := fmt.Sprintf("t%dp%d", t, i)
+						a := &arr{before: zzvsched.Elapsed()}
+						arrivals[tag] = a
+						vnet.ZZPush(f, vnet.ZZUDPChunk("10.0.0.1:1", "10.0.0.2:2", []byte(tag)))
+						a.after = zzvsched.Elapsed()
+						pushed++
+					}
+				})
+			}
+		}
+		check := func(ex *zzvsched.Exec) (string, *explore.Violation) {
+			var got []string
+			for _, g := range rec.Got {
+				got = append(got, string(g.Payload))
+			}
+			out := fmt.Sprintf("got=%v", got)
+			pre := fmt.Sprintf("delay filter %v, %d concurrent arrival paths: ", delay, threads)
+			for _, p := range ex.Panics {
+				return out, &explore.Violation{Sig: "C14 panic delayfilter", Msg: pre + "panic in " + p.Thread + ": " + p.Value + "\n" + p.Stack}
+			}
+			if ex.HorizonHit {
+				return out + " HORIZON", nil
+			}
+			seen := map[string]int{}
+			for i, g := range rec.Got {
+				tag := string(g.Payload)
+				a := arrivals[tag]
+				if a == nil {
+					return out, &explore.Violation{Sig: "C14 modified delayfilter", Msg: pre + fmt.Sprintf("forwarded %q, which never arrived", tag)}
+				}
+				seen[tag]++
+				if seen[tag] > 1 {
+					return out, &explore.Violation{Sig: "C14 order-or-duplicate delayfilter", Msg: pre + fmt.Sprintf("%q forwarded twice: %v", tag, got)}
+				}
+				if g.At < a.before+delay {
+					return out, &explore.Violation{Sig: "C14 early delayfilter", Msg: pre + fmt.Sprintf("%q arrived no earlier than %v and was forwarded at %v", tag, a.before, g.At)}
+				}
+				for _, h := range rec.Got[:i] {
+					b := arrivals[string(h.Payload)]
+					if b != nil && a.after != 0 && a.after < b.before {
+						return out, &explore.Violation{Sig: "C14 order-or-duplicate delayfilter", Msg: pre + fmt.Sprintf("%q had arrived (push returned at %v) before %q began to arrive (%v), yet left after it: %v", tag, a.after, string(h.Payload), b.before, got)}
+					}
+				}
+			}
+			if pushed < threads*per {
+				return out, &explore.Violation{Sig: "C14 arrival-blocked delayfilter", Msg: pre + fmt.Sprintf("an arrival path blocked for good: %v", ex.Parked)}
+			}
+			if len(rec.Got) != threads*per {
+				return out, &explore.Violation{Sig: "C14 not-forwarded delayfilter", Msg: pre + fmt.Sprintf("%d of %d datagrams were never forwarded although the filter is running (end of execution at %v): %v", threads*per-len(rec.Got), threads*per, ex.EndClock, got)}
+			}
+			return out, nil
+		}
+		return body, check
+	}
+	return sc
+}
+
 func c14router(minDelay, maxJitter time.Duration, n, bound int, slow ...time.Duration) *explore.Scenario {
 	sc := &explore.Scenario{Name: fmt.Sprintf("router minDelay=%v jitter=%v n=%d", minDelay, maxJitter, n), Bound: bound}
 	var slowBy time.Duration
@@ -281,11 +360,14 @@ func init() {
 			// a downstream NIC that takes longer per chunk than the spacing of the arrivals
 			out = append(out, c14router(time.Millisecond, 0, 3, 1, 2*time.Microsecond), c14router(20*time.Millisecond, 0, 3, 1, 30*time.Millisecond))
 			out = append(out, c14twoRouters(time.Millisecond, 20*time.Millisecond, 2, 1), c14twoRouters(10*time.Millisecond, time.Millisecond, 2, 1))
+			// several arrival paths at once into an idle filter
+			out = append(out, c14filterConc(0, 2, 1, 2), c14filterConc(500*time.Microsecond, 2, 1, 2), c14filterConc(500*time.Microsecond, 2, 2, 1))
 			if tier == "thorough" {
+				out = append(out, c14filterConc(500*time.Microsecond, 3, 1, 2), c14filterConc(10*time.Millisecond, 2, 2, 2))
 				out = append(out, c14filter(0, 3, 3, false), c14filter(500*time.Microsecond, 3, 3, false), c14router(time.Millisecond, 0, 3, 3))
 			}
 			return out
 		},
-		Rule:        "delay filter: delays {0, 500us, 10ms} x arrival scripts of 3 (thorough 4) datagrams with gaps {0, d/2, d, 2d} x every interleaving of the Run loop, the arrival path and timer expiries within the deviation bound, under legacy and go1.23 channel-timer semantics; router: MinDelay {0,1ms,20ms} x MaxJitter {0,1ms} (jitter draws {0,max-1}) x write gaps x schedules; forwarding stamps are taken in a recording NIC on the virtual clock",
+		Rule:        "delay filter: delays {0, 500us, 10ms} x arrival scripts of 3 (thorough 4) datagrams with gaps {0, d/2, d, 2d} x every interleaving of the Run loop, the arrival path and timer expiries within the deviation bound, under legacy and go1.23 channel-timer semantics; 2-3 concurrent arrival paths x 1-2 datagrams into an idle filter (order judged between non-overlapping pushes); router: MinDelay {0,1ms,20ms} x MaxJitter {0,1ms} (jitter draws {0,max-1}) x write gaps x schedules; forwarding stamps are taken in a recording NIC on the virtual clock",
 		Assumptions: []string{"a thread stalled for an arbitrary time is one deviation (the clock may pass a deadline while the loop has not run)", "time.Minute idle re-arms lie beyond the 30 s horizon and never fire"}})
 }
